@@ -14,18 +14,21 @@ InjSeqs(k, nn) == {s \in [1..k -> 0..nn-1] : \A a, b \in 1..k : a # b => s[a] # 
 DepthFor(name) == IF name \in DeepGates THEN MaxDepth ELSE ShallowDepth
 
 Init == (\E nn \in Ns : BInit(nn)) /\ LIdle
-New == \E name \in AllGates \cup DeepGates :
-         /\ Arity[name] <= n /\ Len(prog) <= MaxProg /\ (MaxProg > 0 => Len(prog) < MaxProg)
-         /\ \E qs \in InjSeqs(Arity[name], n) : NewGate(name, qs)
+New == /\ \E name \in AllGates \cup DeepGates :
+            /\ Arity[name] <= n /\ (MaxProg > 0 => Len(prog) < MaxProg)
+            /\ \E qs \in InjSeqs(Arity[name], n) : NewGate(name, qs)
+       /\ UNCHANGED lvars
 CanGrow == IsSome(cur) /\ Len(cur.some.mods) < DepthFor(cur.some.name)
-Dag  == CanGrow /\ ApplyDagger
-Ctl  == CanGrow /\ \E q \in 0..n-1 : ApplyControlled(q)
-Frk  == CanGrow /\ \E q \in 0..n-1 : ApplyForked(q)
-App  == MaxProg > 0 /\ AppendGate
-Next == (New \/ Dag \/ Ctl \/ Frk \/ App) /\ UNCHANGED lvars
+Dag  == CanGrow /\ ApplyDagger /\ UNCHANGED lvars
+Ctl  == CanGrow /\ (\E q \in 0..n-1 : ApplyControlled(q)) /\ UNCHANGED lvars
+Frk  == CanGrow /\ (\E q \in 0..n-1 : ApplyForked(q)) /\ UNCHANGED lvars
+App  == MaxProg > 0 /\ AppendGate /\ UNCHANGED lvars
+Next == New \/ Dag \/ Ctl \/ Frk \/ App
 Spec == Init /\ [][Next]_<<bvars, lvars>>
 
 ASSUME ConjSound
+\* unitarity of the lifted matrix in GF(991^2) costs 8^n field multiplications: small registers only
+CurLiftUnitarySmall == n <= 3 => CurLiftUnitary
 
 GateJson(g) == [name |-> g.name, mods |-> g.mods, qubits |-> g.qs, np |-> g.np]
 Emit ==
